@@ -310,6 +310,10 @@ def check_no_mutation(run, A):
 
 def check(run):
     A = run.A
+    from ..opt import check_optional_truthiness, check_params_reach, check_forwarding
+    check_forwarding(run, A, ('pb_bss.extraction.mask_module',))
+    check_params_reach(run, A, ('pb_bss.extraction.mask_module',))
+    check_optional_truthiness(run, A, ('pb_bss.extraction.mask_module',))
     run.explanation = (
         'Axis parametricity of every axis-consuming call in the nine mask functions (axis from a parameter; literals only on the canonical 2-D working array, restored with the same axes), '
         'the defining forms of the binary / ratio / amplitude / phase-sensitive / complex masks on their term graphs, integer typing of the flatten dimensions (np.prod of a possibly empty '
